@@ -67,6 +67,14 @@ if __name__ == "__main__":
     mk("c11-timeout-wait-ignored", R + "timeout.py", "            self._delegate.shutdown(wait, **_kwargs)\n            if wait:\n                self._job_thread.join(MAX_TIMEOUT)", "            self._delegate.shutdown(True, **_kwargs)\n            if wait:\n                self._job_thread.join(MAX_TIMEOUT)")
     mk("c11-retry-shutdown-no-wake", R + "retry.py", "            metrics.EXEC_INPROGRESS.labels(executor=self._name, type=\"retry\").dec()\n            self._wake_thread()", "            metrics.EXEC_INPROGRESS.labels(executor=self._name, type=\"retry\").dec()")
     mk("c11-cos-submit-wrong-message", R + "helpers.py", "raise RuntimeError(\"cannot schedule new futures after shutdown\")", "raise RuntimeError(\"cannot schedule new futures after interpreter shutdown\")")
+    # C12
+    mk("c12-retry-loop-keeps-executor-ref", R + "retry.py", "            event = executor._submit_event\n            del executor\n            _submit_wait(event)\n            continue", "            event = executor._submit_event\n            _submit_wait(event)\n            continue")
+    mk("c12-retry-cancelled-job-not-popped", R + "retry.py", "            self._pop_job(found_job)\n            found_job.future._me_delegate_cancelled()", "            found_job.future._me_delegate_cancelled()")
+    mk("c12-callbacks-kept-after-invoke", R + "common.py", "        # Drop references to the callbacks once no longer required,\n        # so that futures don't keep other objects alive longer than needed\n        self._me_done_callbacks = []", "        pass")
+    mk("c12-throttle-thread-strong-self", R + "throttle.py", "            name=\"ThrottleExecutor-%s\" % name, target=_submit_loop, args=(self_ref,)", "            name=\"ThrottleExecutor-%s\" % name, target=_submit_loop, args=(lambda: self,)")
+    mk("c12-cos-discard-before-add", R + "cancel_on_shutdown.py", "                self._futures.add(future)\n                future.add_done_callback(self._futures.discard)", "                future.add_done_callback(self._futures.discard)\n                self._futures.add(future)")
+    mk("c12-timeout-keeps-done-jobs", R + "timeout.py", "            if job.future.done():\n                self._log.debug(\"Discarding job for completed future: %s\", job)\n            elif", "            if job.future.done():\n                pending.append(job)\n            elif")
+    mk("c12-poll-future-keeps-executor", R + "poll.py", "        future._executor._deregister_poll(future)\n        future._executor = None", "        future._executor._deregister_poll(future)")
     # C07
     mk("c07-throttle-ge-to-gt", R + "throttle.py", "(executor._running_count.value >= throttle)", "(executor._running_count.value > throttle)")
     mk("c07-incr-after-submit", R + "throttle.py", "            executor._running_count.incr()\n            metrics.THROTTLE_QUEUE", "            metrics.THROTTLE_QUEUE")
